@@ -3,6 +3,7 @@
 #include "core.h"
 #include "walker.h"
 #include "ber.h"
+#include "transport.h"
 #include "tsanlite.h"
 #include <cerrno>
 #include <cstdlib>
@@ -138,6 +139,12 @@ static bool build_case(uint64_t run_seed, Case &c) {
             if(ber_variant(in.enc[SY_DER], rv, var, vs, &hints) && var.size() <= 8192) in.enc[SY_BER] = var;
         }
         free_struct(in.td, st);
+        if(!in.enc.empty() && r.chance(1, 3)) {
+            // the same encodings after a corrupting transport: error paths of the decoders are library code too
+            Input bad; bad.td = in.td;
+            for(auto &kv : in.enc) { Bytes d = kv.second; std::vector<std::string> ap; Rng rr(r.next()); transport_damage(d, rr, nullptr, ap, 1 + (unsigned)rr.below(3)); if(d.size() <= 8192) bad.enc[kv.first] = d; }
+            if(!bad.enc.empty()) { c.inputs.push_back(bad); G.add("c19.fired.damaged_input"); }
+        }
         if(!in.enc.empty()) c.inputs.push_back(in);
     }
     if(c.inputs.empty()) return false;
@@ -234,6 +241,11 @@ static std::string commented(const std::string &t) { std::string o; std::istring
 
 static bool exec_case(uint64_t run_seed, int only_sched, unsigned nsched, bool report, std::string *sig_out = nullptr, std::string *detail_out = nullptr) {
     Case c;
+    {   // until a schedule is published, a death is attributed to "the whole case"
+        char hb0[320];
+        snprintf(hb0, sizeof hb0, "property C19\nprogram %s\nverif_seed %llu\nrun_seed %llu\nsched all\n", SIM_PROGRAM, (unsigned long long)g_verif_seed, (unsigned long long)run_seed);
+        status_head(hb0); status_ops("");
+    }
     if(!build_case(run_seed, c)) { G.add("c19.skip.nocase"); return false; }
     std::vector<std::vector<OpResult>> solo; uint64_t steps = 0;
     solo_reference(c, solo, steps);
@@ -297,7 +309,7 @@ int main(int argc, char **argv) {
         Plan p; std::string err;
         if(!Plan::parse(slurp(replay.c_str()), p, err)) return 64;
         uint64_t rs = strtoull(p.get("run_seed", "0").c_str(), 0, 10);
-        int s = (int)p.getl("sched", 0);
+        int s = p.get("sched") == "all" ? -1 : (int)p.getl("sched", 0);
         bool v = false; std::string sig, detail;
         v = exec_case(rs, s, 16u, false, &sig, &detail);
         printf("{\"type\":\"replay\",\"property\":\"C19\",\"violated\":%s,\"skipped\":false,\"sig\":\"%s\",\"detail\":\"%s\",\"log_hash\":\"%016llx\"}\n",
